@@ -662,7 +662,7 @@ impl<Sink: TokenSink> XmlTokenizer<Sink> {
             //§ data-state
             XmlState::Data => loop {
                 let Some(popped_element) =
-                    self.pop_except_from(input, small_char_set!('\r' '&' '<'))
+                    self.pop_except_from(input, small_char_set!('\r' '\0' '&' '<'))
                 else {
                     return ProcessResult::Done;
                 };
@@ -929,7 +929,7 @@ impl<Sink: TokenSink> XmlTokenizer<Sink> {
             //§ tag-attribute-value-double-quoted-state
             XmlState::TagAttrValue(DoubleQuoted) => loop {
                 let Some(popped_element) =
-                    self.pop_except_from(input, small_char_set!('\n' '"' '&'))
+                    self.pop_except_from(input, small_char_set!('\r' '\0' '\n' '"' '&'))
                 else {
                     return ProcessResult::Done;
                 };
@@ -944,7 +944,7 @@ impl<Sink: TokenSink> XmlTokenizer<Sink> {
             //§ tag-attribute-value-single-quoted-state
             XmlState::TagAttrValue(SingleQuoted) => loop {
                 let Some(popped_element) =
-                    self.pop_except_from(input, small_char_set!('\n' '\'' '&'))
+                    self.pop_except_from(input, small_char_set!('\r' '\0' '\n' '\'' '&'))
                 else {
                     return ProcessResult::Done;
                 };
@@ -959,7 +959,7 @@ impl<Sink: TokenSink> XmlTokenizer<Sink> {
             //§ tag-attribute-value-double-quoted-state
             XmlState::TagAttrValue(Unquoted) => loop {
                 let Some(popped_element) =
-                    self.pop_except_from(input, small_char_set!('\n' '\t' ' ' '&' '>'))
+                    self.pop_except_from(input, small_char_set!('\r' '\0' '\n' '\t' ' ' '&' '>'))
                 else {
                     return ProcessResult::Done;
                 };
